@@ -227,6 +227,20 @@ func c12Exec(x *Ctx) {
 			negotiated = nm2
 			x.Probe("reply-buffer-older-than-negotiation")
 			st.battery(peer, nm2, 10)
+			if c.cfg("heldat") == 0 && !peer.EOF && len(x.Res.Viol) == 0 {
+				// a third Tversion asks for more again. Whether the server goes back up is its business; whatever
+				// it announces is what it then honours, in both directions
+				up := c.cfg("cmsize")
+				if r := peer.Call(&Msg{Type: Tversion, Tag: NOTAG, Msize: uint32(up), Version: ver2}); r == nil || r.M == nil || r.M.Type != Rversion {
+					x.Violate("m1-version", "a third Tversion (msize %d) was not answered with Rversion", up)
+				} else if a := int64(r.M.Msize); a < 24 || a > up {
+					x.Violate("m1-msize", "a third Tversion asking for msize %d was answered with msize %d", up, a)
+				} else {
+					negotiated = a
+					x.Probe("renegotiation-upwards")
+					st.battery(peer, a, 20)
+				}
+			}
 		}
 	})
 	for {
